@@ -116,3 +116,8 @@ def expm(A):
     for _ in range(s):
         E = E @ E
     return E
+
+
+def quat_mul(q, p):
+    a, b, c, d = q; e, f, g, h = p
+    return np.array([a*e - b*f - c*g - d*h, b*e + a*f - d*g + c*h, c*e + d*f + a*g - b*h, d*e - c*f + b*g + a*h])
